@@ -102,7 +102,7 @@ def gen_cases(tier, rng):
         H = rand_h(rng, dim, hs, degenerate=bool(rng.random() < 0.2), with_ground=False)
         cases.append({"cls": "closed", "dim": dim, "H": H.tolist(), "order": order, "nref": nref, "Nt": int(rng.integers(5, 41)), "dt": dt,
                       "rwa_split": int(rng.integers(1, dim)), "offset": r3(rng.uniform(2.0, 30.0)) * hs, "seed": int(rng.integers(1 << 30)), "cost": 1})
-    labels = ["stR", "stR-ops", "stR-sec", "stF", "cRF", "direct-Redfield", "direct-Foerster-pd", "stR-TD", "stF-TD", "cRF-TD", "stR-TD-sec", "neF", "neF-TD"]
+    labels = ["stR", "stR-ops", "stR-sec", "stF", "cRF", "direct-Redfield", "direct-Foerster-pd", "stR-TD", "stF-TD", "cRF-TD", "stR-TD-sec", "neF", "neF-TD", "stR-TD-cut", "stR-TD-ops"]
     reps = 4 if tier == "quick" else 16
     for lab in labels:
         for r in range(reps):
